@@ -1,6 +1,7 @@
 import NeverModel.Gen.ParserTab
 import NeverModel.Lemmas.Ledger
 import NeverModel.Lemmas.Own
+import NeverModel.Lemmas.OwnSem
 /-!
 # C16 — compile, run and dispose release all memory, on success and on every error path
 
@@ -266,7 +267,7 @@ theorem elsewhere_released_there : ∀ r ∈ specialRules, elsewhereOk r = true 
   exact fun r hr => List.all_eq_true.mp h r hr
 
 /-- **a retagged node keeps the books** (statement: `Own.retagOk`): at every place outside constructors where the code
-stores a constant into the tag member of an existing node — constant folding (`constred.c`, `enumred.c`: 249 sites),
+stores a constant into the tag member of an existing node — constant folding (`constred.c`, `enumred.c`: ~150 sites),
 `param_enum_record_check_type` (a record type that turns out to be an enum), `expr_tailrec` — for every tag the node can
 have before and every owned member it can hold under that tag, the block of the store releases the member with the right
 function, or moves it to a member that the new tag's arm releases, or leaves it where the new tag's arm releases it; and
@@ -313,7 +314,7 @@ example : (match dels.find? (fun d => eqN d.fn Fn.bind_delete) with
                  noDoubleOk d, noDoubleOk { d with common := d.common.take 1 ++ d.common })
     | none => (false, false, false, false)) = (true, false, true, false) := by decide +kernel
 example : (match dels.find? (fun d => eqN d.fn Fn.expr_delete) with
-    | some d => (borrowedKeptOk d, borrowedKeptOk { d with common := [⟨F.expr__comb_array_comb_ret, 24, Fn.param_delete, true, 0, false, false, ""⟩] })
+    | some d => (borrowedKeptOk d, borrowedKeptOk { d with common := [⟨F.expr__comb_array_comb_ret, 24, Fn.param_delete, true, 0, false, false, 0, ""⟩] })
     | none => (false, false)) = (true, false) := by decide +kernel
 /-- the retag check fails when the new tag's arm does not release what the old tag held: a `PARAM_RECORD` turned into
 `PARAM_ENUMTYPE` by a site that is told the enum arm releases nothing -/
@@ -325,6 +326,86 @@ example : classify F.expr__left T.EXPR_ADD = .owned ∧ classify F.expr__comb_fu
     classify F.module_decl__id T.MODULE_DECL_TYPE_MOD = .owned ∧ classify F.module_decl__id T.MODULE_DECL_TYPE_REF = .borrowed ∧
     classify F.expr_list_node__next 0 = .elsewhere Fn.expr_list_delete ∧ classify F.functab_entry__id 0 = .ownedCond := by
   decide +kernel
+
+
+/-! ### what the table theorems mean on heaps (`Model/OwnSem.lean`) -/
+section Sem
+open Never.OwnSem
+
+/-- **what a delete function releases is what the node owns**: for every delete function of a struct of the project (arrays
+of structs aside) and every tag a node can have, the direct unconditional releases at offsets where a member can hold a
+value are — as (offset, type of the child, list link) triples, up to order — exactly the members the discipline classifies
+as owned among those that can hold a value; a list head is released along the link member that the discipline attributes
+to the list's delete function. -/
+theorem table_edges_match :
+    ∀ d ∈ dels, ∀ tag ∈ tagsOf d, inScope d tag = true →
+      ((relEdges d tag).filter fun e => heldOff d tag e.off).Perm (ownedEdges d tag) := by
+  have h : dels.all edgesMatchOk = true := by decide +kernel
+  intro d hd tag ht hs
+  have h1 := List.all_eq_true.mp (List.all_eq_true.mp h d hd) tag ht
+  simp only [hs, Bool.not_true, Bool.false_or] at h1
+  exact List.isPerm_iff.mp h1
+
+/-- **deleting a node frees exactly the blocks it owns.**  In ANY heap of nodes whose non-NULL slots lie where the
+constructors / later stores of the tree can put a value (`WF`), for any fuel, any start address `a` and static type `τ`:
+the walk that does what `τ_delete(a)` does according to the regenerated table — release every direct member the function
+releases under the node's tag (recursively with the child type's delete function, a list along its link), then free the
+node — and the walk that enumerates what the node owns according to the discipline either both get stuck (out of fuel,
+dangling pointer, a child of another type than the member's) or yield the same blocks up to order. -/
+theorem delete_frees_exactly_the_owned_tree (h : Heap) (wf : WF h) (fuel τ a : Nat) :
+    Agree (walk tableRels h fuel τ a) (walk tableOwned h fuel τ a) := by
+  refine (walkP_agree tableRels tableOwned h ?_ fuel).1 τ a
+  intro a n hn
+  simp only [tableRels, tableOwned]
+  cases hd : delOf n.ty with
+  | none => exact ⟨fun _ => true, by simp, by simp⟩
+  | some d =>
+    cases hs : inScope d n.tag with
+    | false => exact ⟨fun _ => true, by simp, by simp [hs]⟩
+    | true =>
+      simp only [hs, ↓reduceIte]
+      refine ⟨fun e => heldOff d n.tag e.off, fun e _ hp => ?_, ?_⟩
+      · cases hc : n.slot e.off with
+        | none => rfl
+        | some c =>
+          have hh := wf a n hn d hd hs e.off c hc
+          simp only [hh] at hp
+          cases hp
+      · have hmem : d ∈ dels := List.mem_of_getElem? hd
+        have htag : n.tag ∈ tagsOf d := by
+          have : (tagsOf d).any (eqN n.tag) = true := by
+            simp only [inScope, Bool.and_eq_true] at hs; exact hs.1.2
+          obtain ⟨t, ht, he⟩ := List.any_eq_true.mp this
+          rw [eqN_iff.mp he]; exact ht
+        exact table_edges_match d hmem n.tag htag hs
+
+/-- **no double free, no leak, no foreign free**: if what the node owns (transitively, by the discipline) is a tree — the
+enumeration `bs` has no repetition — then the delete function terminates with the same fuel, frees every block of `bs`,
+only those, and none twice. -/
+theorem delete_frees_nothing_twice_and_leaves_nothing (h : Heap) (wf : WF h) (fuel τ a : Nat) (bs : List Nat)
+    (hb : walk tableOwned h fuel τ a = some bs) (hnd : bs.Nodup) :
+    ∃ fs, walk tableRels h fuel τ a = some fs ∧ fs.Nodup ∧ ∀ b, b ∈ fs ↔ b ∈ bs := by
+  have hA := delete_frees_exactly_the_owned_tree h wf fuel τ a
+  rw [hb] at hA
+  cases hf : walk tableRels h fuel τ a with
+  | none => rw [hf] at hA; exact hA.elim
+  | some fs =>
+    rw [hf] at hA
+    exact ⟨fs, rfl, (List.Perm.nodup_iff hA).mpr hnd, fun b => List.Perm.mem_iff hA⟩
+
+/-- non-vacuity: `1 + (2 * 3)`-shaped tree — an `EXPR_ADD` at 1 with an `EXPR_INT` at 2 and an `EXPR_ID` at 3 whose name is
+the block 4 (a `char`: no node, so the walk stops there with `none`… unless it is given as a leaf node of type `char`) -/
+def exHeap : Heap := fun a =>
+  if a = 1 then some ⟨S.expr, T.EXPR_ADD, fun o => if o = 40 then some 2 else if o = 48 then some 3 else none⟩
+  else if a = 2 then some ⟨S.expr, T.EXPR_INT, fun _ => none⟩
+  else if a = 3 then some ⟨S.expr, T.EXPR_ID, fun o => if o = 40 then some 4 else none⟩
+  else if a = 4 then some ⟨S.char, 0, fun _ => none⟩
+  else none
+
+example : walk tableRels exHeap 3 S.expr 1 = some [2, 4, 3, 1] ∧ walk tableOwned exHeap 3 S.expr 1 = some [2, 4, 3, 1] := by
+  decide +kernel
+
+end Sem
 
 end Own
 
